@@ -15,8 +15,8 @@ RULE = ("histories (<=50 ops) of Hstartwrite/Hstartaccess(r,w,appendable)/Happen
         "known/unknown/gap cells. Non-trivial = silent promotion to linked blocks, write spanning >=2 blocks, "
         "read across a hole, two access ids interleaved on one element, or reopen followed by a read of "
         "earlier data.")
-BUDGET = {"quick": {"shards": 8, "cases": 200}, "thorough": {"shards": 16, "cases": 2500}}
-MIN_NT = {"quick": 200, "thorough": 3000}
+BUDGET = {"quick": {"shards": 8, "cases": 600}, "thorough": {"shards": 16, "cases": 6000}}
+MIN_NT = {"quick": 1000, "thorough": 10000}
 ASSUMPTIONS = ["at most one writing access id per element at a time (documented user responsibility, Hwrite)",
                "conversions/promotions (HLcreate/HLconvert/HXcreate/appendable growth) only while no other "
                "access id is attached to the element",
@@ -292,6 +292,8 @@ class Model:
                 raise Fail("Hread returned wrong count", op=what, expected=want, observed=r.ret, pos=aid.pos,
                            length=e.len)
             got = r.bufs[0][:want]
+            if any(b != 0xA5 for b in r.bufs[0][want:]):
+                raise Fail("Hread wrote beyond the returned count", op=what, count=want)
             exp = e.store.data[aid.pos:aid.pos + want]
             for i in range(want):
                 c = sts[i]
@@ -361,6 +363,8 @@ class Model:
             if r.ret != e.len:
                 raise Fail("Hgetelement returned wrong length", op=what, expected=e.len, observed=r.ret)
             got = r.bufs[0][:e.len]
+            if any(b != 0xA5 for b in r.bufs[0][e.len:]):
+                raise Fail("Hgetelement wrote beyond the element length", op=what, length=e.len)
             for i in range(e.len):
                 if sts[i] == K and got[i] != e.store.data[i]:
                     raise Fail("Hgetelement returned wrong data", op=what, at=i, expected=e.store.data[i],
@@ -644,6 +648,15 @@ def emit(case, d):
     plan = []      # (op, [linenos])
     ln0 = p.call("i", "Hopen", path, 7, case["ndds"], bind="f")
     shadow = Model()   # to know which slots are live at reopen time
+    # upper bound on any element length reachable in this case (sizes buffers independently of the model)
+    bound = 64
+    for op in case["ops"]:
+        if op[0] in ("w", "put"):
+            bound += op[2]
+        elif op[0] == "sw":
+            bound += op[3]
+        elif op[0] == "sk":
+            bound += max(0, op[2])
     for op in case["ops"]:
         k = op[0]
         lines = []
@@ -665,10 +678,7 @@ def emit(case, d):
         elif k == "r":
             aid = shadow.a[op[1]]
             e = shadow.e.get(aid.key) if aid else None
-            cap = (e.maxlen if e else 0) + 8
-            n = op[2]
-            size = min(cap, n) if n else cap
-            lines.append(p.call("i", "Hread", V("a%d" % op[1]), n, Out(max(size, n if n <= cap else cap))))
+            lines.append(p.call("i", "Hread", V("a%d" % op[1]), op[2], Out(bound)))
         elif k == "tell":
             lines.append(p.call("i", "Htell", V("a%d" % op[1])))
         elif k == "inq":
@@ -679,9 +689,7 @@ def emit(case, d):
             lines.append(p.call("i", "Hlength", V("f"), t, r))
         elif k == "get":
             t, r = KEYS[op[1]]
-            e = shadow.e.get(op[1])
-            cap = (e.maxlen if e else 0) + 8
-            lines.append(p.call("i", "Hgetelement", V("f"), t, r, Out(cap)))
+            lines.append(p.call("i", "Hgetelement", V("f"), t, r, Out(bound)))
         elif k == "put":
             t, r = KEYS[op[1]]
             lines.append(p.call("i", "Hputelement", V("f"), t, r, pat(op[3], op[2], 0), op[2]))
@@ -729,7 +737,7 @@ def emit(case, d):
         t, r = KEYS[k]
         fin.append(("flen", k, p.call("i", "Hlength", V("f"), t, r)))
         if e.maxlen > 0:
-            fin.append(("fget", k, p.call("i", "Hgetelement", V("f"), t, r, Out(e.maxlen + 8))))
+            fin.append(("fget", k, p.call("i", "Hgetelement", V("f"), t, r, Out(bound))))
     fin.append(("close", None, p.call("i", "Hclose", V("f"))))
     return p, plan, (ln0, fin)
 
